@@ -268,6 +268,34 @@ func famC18(r *Run) {
 			r.violate("G-go-fun", text2, generic, "panic on a document of Go structs / typed slices", o2.Msg+describeGo(doc))
 		}
 	}
+	// targeted: nil pointers reached through values, pointers, typed slices and projections
+	for i := 0; i < r.n(6, 40); i++ {
+		doc, generic := g.ptrSliceDoc()
+		for _, text := range []string{
+			"lp[*].sub", "l[*].sub", "p.sub.sub", "[p.sub.sub]", "lp[].sub", "lp[?foo].sub", "p.{s: sub.sub}", "lp[*].sub || 'x'",
+			"length(lp[*].sub)", "q.sub", "p.sub.sub.foo", "lp[1:].sub", "lp[*].[sub]", "lp[*].sub.foo", "(lp[*].sub)[0]", "lp[*]", "lp[]",
+			"lp[?sub]", "lp[?!sub].foo", "l[?!sub].foo", "[q, p.sub.sub, lp[0]]", "{a: q, b: p.sub.sub}", "q || p.sub.sub || 'none'",
+			"!q", "!p.sub.sub", "p.sub.sub && 'x'", "lp[*].sub | length(@)", "l[*].sub | [0]", "ep[*].sub", "el[*].foo", "es[0]", "length(es)",
+			"p.sub.{a: sub, b: foo}", "lp[-1].sub", "lp[::-1].sub", "strs[::-1]", "nums[1:]", "l[0].sub.foo",
+		} {
+			r.mark("G-go-nil", text, generic)
+			og := observeSearch(text, generic)
+			od := observeSearch(text, doc)
+			if od.Kind == "panic" {
+				r.violate("G-go-nil", text, generic, "panic on a document of Go structs / typed slices", od.Msg+describeGo(doc))
+			} else if od.Kind == "val" && og.Kind == "val" {
+				nd, err := normalise(od.Value)
+				if err != nil || !jsonEqual(nd, og.Value) {
+					b, _ := json.Marshal(nd)
+					r.violate("G-go-nil", text, generic, "result on Go structs differs from the result on the equivalent generic document", "structs: "+string(b)+" generic: "+og.String()+describeGo(doc))
+				}
+			} else if od.Kind != og.Kind {
+				r.violate("G-go-nil", text, generic, "outcome on Go structs differs from the outcome on the equivalent generic document", od.String()+" vs "+og.String()+describeGo(doc))
+			}
+			r.addSearch("G-go-nil", text, generic, "exact")
+			r.addGo("G-go-model-nil", text, doc, od)
+		}
+	}
 	// a nil pointer as the document itself behaves like the null document
 	{
 		type N struct {
